@@ -113,3 +113,124 @@ def read_states(path):
             cells[rec[0:3]] = (rec[3:8], rec[8:13])
         out.append((step, cells))
     return out
+
+
+# ----------------------------------------------------------------------------
+# numerical digests of observed hydro states (pre-digestion to integers for TLC)
+import math
+import random as _random
+
+EPS = 2.220446049250313e-16
+CAP = 10 ** 9
+KB_OVER_MH = 1.380649e-23 / 1.6737236e-27
+
+
+def random_blocks(rng, side, anchor, kind):
+    """Seeded piecewise-constant initial fields.
+    kind: 'contrast' (density/pressure jumps up to 1e6, subsonic..transonic flow),
+          'vacuum' (near-vacuum regions), 'calm' (small velocities: wall Mach < 1)."""
+    cx = [anchor[i] + 0.5 * side[i] for i in range(3)]
+    bl = [dict(origin=cx, sides=list(side), n=1.0e6, T=100., v=(0., 0., 0.))]
+    nb = rng.randint(4, 9)
+    for _ in range(nb):
+        o = [anchor[i] + rng.uniform(0.05, 0.95) * side[i] for i in range(3)]
+        sz = [rng.uniform(0.1, 0.7) * side[i] for i in range(3)]
+        if kind == "vacuum":
+            n = 10 ** rng.uniform(-6, 6)
+        else:
+            n = 10 ** rng.uniform(3, 9)
+        T = 10 ** rng.uniform(1, 4)
+        c = math.sqrt(5. / 3. * KB_OVER_MH * T)
+        vm = {"contrast": 1.2, "vacuum": 0.8, "calm": 0.3}[kind] * c
+        bl.append(dict(origin=o, sides=sz, n=n, T=T, v=tuple(rng.uniform(-vm, vm) for _ in range(3))))
+    return bl
+
+
+def cell_scales(cons, prim, gamma, vol):
+    """Natural magnitude of what one step adds to / removes from a cell."""
+    m = abs(cons[0])
+    rho, P = prim[0], prim[4]
+    v = math.sqrt(prim[1] ** 2 + prim[2] ** 2 + prim[3] ** 2)
+    c = math.sqrt(gamma * P / rho) if rho > 0 and P > 0 else 0.
+    sm = 2. * m
+    sp = 2. * (math.sqrt(cons[1] ** 2 + cons[2] ** 2 + cons[3] ** 2) + m * (v + c))
+    se = 2. * (abs(cons[4]) + P * vol)
+    return sm, sp, se
+
+
+def units(delta, scale):
+    if scale <= 0.:
+        return 0 if delta == 0. else CAP
+    x = abs(delta) / (EPS * scale)
+    return CAP if not (x < CAP) else int(math.ceil(x))
+
+
+def step_records(states, hstates, gamma, box_anchor, box_side, ncell, periodic):
+    """states: read_states() output (step 0 = initial); hstates: h.state records.
+    Returns one 'step' record per advanced step."""
+    vol = 1.
+    dx = [box_side[i] / ncell[i] for i in range(3)]
+    for d in dx:
+        vol *= d
+    recs = []
+    hs = {h["step"]: h for h in hstates}
+    for (k0, c0), (k1, c1) in zip(states[:-1], states[1:]):
+        tot0 = [math.fsum(c[0][j] for c in c0.values()) for j in range(5)]
+        tot1 = [math.fsum(c[0][j] for c in c1.values()) for j in range(5)]
+        sm = sp = se = 0.
+        slow = 1
+        for pos, (cons, prim) in c0.items():
+            a, b, c = cell_scales(cons, prim, gamma, vol)
+            sm += a
+            sp += b
+            se += c
+            # gas running into a reflecting wall faster than 1.5 c ?
+            rho, P = prim[0], prim[4]
+            cs = math.sqrt(gamma * P / rho) if rho > 0 and P > 0 else 0.
+            for ax in range(3):
+                if periodic[ax]:
+                    continue
+                lo = pos[ax] - box_anchor[ax] < dx[ax]
+                hi = box_anchor[ax] + box_side[ax] - pos[ax] < dx[ax]
+                vn = prim[1 + ax]
+                if (hi and vn > 1.5 * cs) or (lo and -vn > 1.5 * cs):
+                    slow = 0
+        finite = 1
+        nonneg = 1
+        for cons, prim in c1.values():
+            for x in cons + prim:
+                if not math.isfinite(x):
+                    finite = 0
+            if cons[0] < 0. or cons[4] < 0. or prim[0] < 0. or prim[4] < 0.:
+                nonneg = 0
+        h = hs.get(k1, {})
+        recs.append({"e": "step", "k": k1, "finite": finite if h.get("finite", 1) else 0, "nonneg": nonneg,
+                     "clamps": h.get("clamps", 0), "slow": slow,
+                     "dM": units(tot1[0] - tot0[0], sm), "dPx": units(tot1[1] - tot0[1], sp),
+                     "dPy": units(tot1[2] - tot0[2], sp), "dPz": units(tot1[3] - tot0[3], sp),
+                     "dE": units(tot1[4] - tot0[4], se)})
+    return recs
+
+
+def cell_index(pos, anchor, side, ncell):
+    return tuple(int(round((pos[i] - anchor[i]) / (side[i] / ncell[i]) - 0.5)) for i in range(3))
+
+
+def state_by_index(cells, anchor, side, ncell):
+    return {cell_index(p, anchor, side, ncell): v for p, v in cells.items()}
+
+
+def max_deviation(ref, other, gamma, vol):
+    """Largest per-cell deviation of the conserved variables in units of EPS x scale."""
+    worst = 0
+    where = None
+    for idx, (cons, prim) in ref.items():
+        if idx not in other:
+            return CAP, idx
+        oc = other[idx][0]
+        sm, sp, se = cell_scales(cons, prim, gamma, vol)
+        for j, sc in ((0, sm), (1, sp), (2, sp), (3, sp), (4, se)):
+            u = units(oc[j] - cons[j], sc)
+            if u > worst:
+                worst, where = u, (idx, j)
+    return worst, where
